@@ -628,6 +628,8 @@ cdef class _ProdElement(_BaseElement):
             temp = self._right.matmul_data_t(t, state)
             out = self._left.matmul_data_t(t, temp, out)
             return out
+        elif out is None:
+            return _data.matmul(self.data(t), state, self.coeff(t))
         elif type(state) is Dense and type(out) is Dense:
             imatmul_data_dense(self.data(t), state, self.coeff(t), out)
             return out
